@@ -2,6 +2,7 @@ package main
 
 import (
 	"go/types"
+	"sort"
 	"strings"
 
 	"golang.org/x/tools/go/ssa"
@@ -63,6 +64,22 @@ func putFanoutRule(o *Ob) {
 				// the same set of possible values at both places
 				a, b := e.ValStrs(fn, e.ValsUnder(nil, fs.Val)), e.ValStrs(fn, e.ValsUnder(nil, stored))
 				same = strings.Join(a, "|") == strings.Join(b, "|")
+			}
+			if !same {
+				// the same set of versions once "nothing" is left out: a helper that stores hands back nothing on
+				// the path where it did not store, and the caller skips the hand-over there
+				a, b := e.ValStrs(fn, e.ValsUnder(nil, fs.Val)), e.ValStrs(fn, e.ValsUnder(nil, stored))
+				drop := func(xs []string) string {
+					var out []string
+					for _, x := range xs {
+						if x != "nil" {
+							out = append(out, x)
+						}
+					}
+					sort.Strings(out)
+					return strings.Join(out, "|")
+				}
+				same = drop(a) != "" && drop(a) == drop(b)
 			}
 			o.Check(same, "fanout-stored-version", "subscribers are handed "+e.X(fn, fs.Val)+" while "+e.X(fn, stored)+" is stored: after a merge the inhibitor and the dispatcher would work with an end time the store does not hold", fs)
 		}
